@@ -338,10 +338,19 @@ func runC12(c *fw.Ctx) {
 			continue
 		}
 		cs := genCase(c.Rng(id), cfg) // identical twin
-		f := plant(c.Rng(id+"/fault"), cs)
+		fr := c.Rng(id + "/fault")
+		f := plant(fr, cs)
 		if f == nil {
 			c.Count("no_fault_plantable_skipped", 1)
 			continue
+		}
+		if i%5 == 4 {
+			// a second, independent fault: the error may name either cause
+			if f2 := plant(fr, cs); f2 != nil {
+				f = &fault{kind: f.kind + " + " + f2.kind, classes: append(append([]string{}, f.classes...), f2.classes...),
+					mayBeUnreached: f.mayBeUnreached && f2.mayBeUnreached, anyOutcome: f.anyOutcome || f2.anyOutcome}
+				c.Count("double_faults", 1)
+			}
 		}
 		e, ok := run(c, cs)
 		input := func() any {
